@@ -39,6 +39,10 @@ type faultOne struct {
 	Idx   int    `json:"idx"`
 	T1    int    `json:"t1"`
 	T2    int    `json:"t2"`
+	T3    int    `json:"t3"`
+	Gi    int    `json:"gi"`
+	Frac  int    `json:"frac"`
+	Off   int    `json:"off"`
 }
 
 type dirEntry9 struct {
@@ -87,6 +91,18 @@ func symVal32(v string, size int, old uint32) uint32 {
 		return 0x80000000
 	}
 	return old
+}
+
+func sym8(v string) byte {
+	switch v {
+	case "0":
+		return 0
+	case "5":
+		return 5
+	case "mid8":
+		return 0x7F
+	}
+	return 0xFF
 }
 
 func symVal16(v string) uint16 {
@@ -179,6 +195,89 @@ func applyFaults(b []byte, plan []faultOne) []byte {
 			binary.BigEndian.PutUint32(m[a.pos+12:], uint32(c.length))
 			binary.BigEndian.PutUint32(m[c.pos+8:], uint32(a.off))
 			binary.BigEndian.PutUint32(m[c.pos+12:], uint32(a.length))
+		case "setbyte":
+			p := e.off + e.length*f.Frac/8 + f.Off
+			if p < e.off || p >= e.off+e.length || p >= len(m) {
+				return nil
+			}
+			m[p] = sym8(f.V)
+		case "glyphbyte":
+			// the gi-th non-empty glyph record of 'glyf', located through 'loca'
+			var glyf, loca, head *dirEntry9
+			for i := range dir {
+				switch dir[i].tag {
+				case "glyf":
+					glyf = &dir[i]
+				case "loca":
+					loca = &dir[i]
+				case "head":
+					head = &dir[i]
+				}
+			}
+			if glyf == nil || loca == nil || head == nil || head.off+52 > len(b) || loca.off+loca.length > len(b) {
+				return nil
+			}
+			long := binary.BigEndian.Uint16(b[head.off+50:]) != 0
+			seen, pos := 0, -1
+			for i := 0; ; i++ {
+				var s0, s1 int
+				if long {
+					if 4*i+8 > loca.length {
+						break
+					}
+					s0, s1 = int(binary.BigEndian.Uint32(b[loca.off+4*i:])), int(binary.BigEndian.Uint32(b[loca.off+4*i+4:]))
+				} else {
+					if 2*i+4 > loca.length {
+						break
+					}
+					s0, s1 = 2*int(binary.BigEndian.Uint16(b[loca.off+2*i:])), 2*int(binary.BigEndian.Uint16(b[loca.off+2*i+2:]))
+				}
+				if s1 > s0 {
+					seen++
+					if seen == f.Gi {
+						if f.Idx < s1-s0 {
+							pos = glyf.off + s0 + f.Idx
+						}
+						break
+					}
+				}
+			}
+			if pos < 0 || pos >= len(m) {
+				return nil
+			}
+			m[pos] = sym8(f.V)
+		case "sbixdupe":
+			var sb *dirEntry9
+			for i := range dir {
+				if dir[i].tag == "sbix" {
+					sb = &dir[i]
+				}
+			}
+			if sb == nil || sb.off+12 > len(b) {
+				return nil
+			}
+			strike := sb.off + int(binary.BigEndian.Uint32(b[sb.off+8:]))
+			changed := false
+			for g, target := range []int{f.T1, f.T2, f.T3} {
+				gid := g + 1
+				if target == 0 {
+					continue
+				}
+				op := strike + 4 + 4*gid
+				if op+8 > len(b) {
+					return nil
+				}
+				d0, d1 := int(binary.BigEndian.Uint32(b[op:])), int(binary.BigEndian.Uint32(b[op+4:]))
+				if d1-d0 < 10 || strike+d0+10 > len(m) {
+					return nil
+				}
+				copy(m[strike+d0+4:], "dupe")
+				binary.BigEndian.PutUint16(m[strike+d0+8:], uint16(target))
+				changed = true
+			}
+			if !changed {
+				return nil
+			}
 		case "numtables":
 			if dir == nil || len(m) < 6 {
 				return nil
@@ -207,6 +306,14 @@ func planTags(b []byte, plan []faultOne) []string {
 			if ti >= 1 && ti <= len(dir) {
 				out = append(out, strings.TrimSpace(dir[ti-1].tag))
 			}
+		}
+	}
+	for _, f := range plan {
+		switch f.K {
+		case "glyphbyte":
+			out = append(out, "glyf")
+		case "sbixdupe":
+			out = append(out, "sbix")
 		}
 	}
 	if len(out) == 0 {
